@@ -4,7 +4,9 @@ PROP = dict(
     title="Results do not depend on how the embedder slices execution",
     lean_module="AbraProofs.Properties.C10",
     required_theorems=["C10_noDone_invariant", "C10_runN_add", "C10_runN_add_outOfSteps", "C10_runSeq_eq_sum",
-                       "C10_slicing_invariant", "C10_host_delay_invariant", "C10_host_delay_single"],
+                       "C10_slicing_invariant", "C10_host_delay_invariant", "C10_host_delay_single",
+                       "C10_output_schedule_invariant_partial", "C10_schedule_is_reference_partial",
+                       "C10_task_print_race_counterexample", "C10_channel_merge_race_counterexample"],
     harness_bin="c10",
     # the compared observable (the complete interleaving of executed instructions, blocked reads, run-queue
     # order per call) is more than the property fixes; a concrete failing input comes from spec_fail only
@@ -33,12 +35,16 @@ PROP = dict(
         "(one reader and one writer per channel) and is checked on the implementation, not proved",
     ],
     design_ref="DESIGN.md §6 C10",
-    level_text="Theorems for every deterministic thread step function about a model of Runtime::run_n_steps / "
+    level_text="(partial for programs with tasks) Theorems for every deterministic thread step function about a model of Runtime::run_n_steps / "
                "run_threads_round_robin / finish_thread_turn / drain_new_threads / update_status_helper: budgets add up "
                "(state, trace, status, steps), any two budget sequences with the same total agree, calls while all threads "
-               "are blocked change nothing. The model is tied to /repo on every run by trace validation through a cfg-guarded "
+               "are blocked change nothing; for programs without tasks every embedder schedule (any budgets, any delay in servicing host "
+               "calls) yields the output and state of the reference embedder after the same number of instructions; for programs with tasks "
+               "two proved counterexamples (known findings C10-task-print-race, C10-channel-merge-race). The model is tied to /repo on every run by trace validation through a cfg-guarded "
                "event log, and the property is checked directly on the implementation across schedules.",
-    level_note="The scheduler model is validated by trace correspondence, not derived from vm.rs; thread-internal "
+    level_note="PARTIAL for the second sentence of the property: independence of the output from slicing for task programs that "
+               "obey the one-writer/one-reader discipline and join the printing task is checked on the implementation only (Kahn "
+               "determinism of the model is left OPEN in C10.lean); without that discipline it is false (two known findings). The scheduler model is validated by trace correspondence, not derived from vm.rs; thread-internal "
                "instructions (including the resumable string instructions) are abstract steps in the theorems and are covered by "
                "the direct slicing check on the implementation. See known findings for the two shapes where output does depend on slicing.",
     technique="Lean 4 theorems (induction over the round-robin loop) over a hand-written scheduler model + trace validation and differential slicing against the real runtime",
